@@ -65,6 +65,9 @@ def _mk_ops():
     for kind in ("update", "|=", "-=", "&=", "^="):
         ops.append(("%s{}" % kind, kind, ()))
     for (i, j) in PAIRS[:4]:
+        for kind in ("ir.cfg|=", "ir.cfg-=", "ir.cfg&=", "ir.cfg^="):
+            ops.append(("%s{e%d,e%d}" % (kind, i, j), kind, (i, j)))
+    for (i, j) in PAIRS[:4]:
         for kind in ("^=list", "|=list", "-=iter", "&=list", "^=view"):
             ops.append(("%s[e%d,e%d,e%d]" % (kind, i, j, i), kind, (i, j)))
     for (i, j) in PAIRS[:4]:
@@ -113,6 +116,22 @@ def apply(w, opi):
     elif kind == "clear":
         cfg.clear()
         model.clear()
+    elif kind in ("ir.cfg|=", "ir.cfg-=", "ir.cfg&=", "ir.cfg^="):
+        # the operator spelled through the attribute: ir.cfg op= x  (== ir.cfg = ir.cfg.__iop__(x))
+        if kind == "ir.cfg|=":
+            w.ir.cfg |= set(es)
+            model |= keys
+        elif kind == "ir.cfg-=":
+            w.ir.cfg -= set(es)
+            model -= keys
+        elif kind == "ir.cfg&=":
+            w.ir.cfg &= set(es)
+            model &= keys
+        else:
+            w.ir.cfg ^= set(es)
+            model ^= keys
+        w.cfg = w.ir.cfg
+        cfg = w.cfg
     elif kind in ("^=list", "|=list", "-=iter", "&=list", "^=view"):
         # the right-hand side is not a Set: a list naming an edge twice, an iterator, a live view of the CFG itself
         rhs = [es[0], es[1], es[0]]
